@@ -356,6 +356,10 @@ func (c *RetryClient) SetClient(ctx context.Context, cli *BaseClient) {
 
 			task(ctx, cli)
 
+			c.muStats.Lock()
+			c.stats.QueuedRetries = len(c.retryQueue)
+			c.muStats.Unlock()
+
 			if c.newRetryByError {
 				_ = cli.Close()
 				connected = false
@@ -474,7 +478,6 @@ func (c *RetryClient) Stats() RetryStats {
 
 	c.mu.RLock()
 	stats.QueuedTasks = len(c.taskQueue)
-	stats.QueuedRetries = len(c.retryQueue)
 	c.mu.RUnlock()
 
 	return stats
